@@ -267,7 +267,11 @@ Definition c01_node_ok (k : ccase) (nid : positive) (n : node) : bool :=
   let demand := rsum (map charge (occupying k nid ++ bound_on k nid)) in
   (cpu demand <=? cpu (n_alloc n)) && (mem demand <=? mem (n_alloc n))
   && (gpu demand <=? gpu (n_alloc n)) && (pods demand <=? pods (n_alloc n))
-  && (mig demand <=? mig (n_alloc n)) && (ext demand <=? ext (n_alloc n)).
+  && (mig demand <=? mig (n_alloc n)) && (ext demand <=? ext (n_alloc n))
+  (* whole GPUs: a device shared by fractional pods is not available to whole-GPU pods either *)
+  && (let ts := occupying k nid ++ bound_on k nid in
+      let gs := nodup_pos (all_groups ts) in
+      gpu demand + Z.of_nat (List.length (filter (fun g => 0 <? spec_gused g ts) gs)) <=? n_ngpu n).
 Definition c01_ok (k : ccase) : bool :=
   forallb (fun kn => c01_node_ok k (fst kn) (snd kn)) (c_nodes k)
   (* every bind names a known pod and node, at most once per pod *)
